@@ -108,6 +108,16 @@ func verifC11Sys(id string, seed int64) *verifSys {
 			verifTick(w.P[0].C)
 			verifTick(w.P[1].C)
 			w.Q[0] = append(w.Q[0], w.P[1].Query())
+		case "Hk":
+			// an SMP run has taken place; then B's client comes back with another long-term key (same instance tag),
+			// A still holds the session, B asks and the session is replaced without End() on A's side
+			c11FreshRun(w, 0, question, secret)
+			old := w.P[1]
+			w.P[1] = verifNewPrincipal(verifConvCfg{Name: "B", Seed: seed + 500, Policies: old.C.Policies, Key: verifKey(seed, "B-second-key")})
+			w.P[1].C.ourInstanceTag = old.C.ourInstanceTag
+			w.Q[0], w.Q[1] = nil, nil
+			verifTick(w.P[0].C)
+			w.Q[0] = append(w.Q[0], w.P[1].Query())
 		case "Ha":
 			w.P[0].End() // the disconnect message never arrives
 			verifTick(w.P[0].C)
@@ -546,7 +556,7 @@ func init() {
 			return fs
 		},
 		Run: func(r *verifReport) {
-			r.Rule = "honest world: for every secret pair (empty, equal, case / last-bit / NUL-suffix / prefix differences, 1000-byte, binary) × with/without question × either initiator × v2/v3: explicit-state exploration of all interleavings of SMP steps, the answer, a budget of chat texts either way (forcing key rotation) and a clock tick, with 1 or 2 StartAuthenticate calls by the initiator (back-to-back), a further StartAuthenticate at any moment by either side (S2r / S2x), in sessions that came about by a first exchange, by a refresh (Hr) and by a re-key after one side ended and its disconnect was lost (Ha); oracle: success on both sides ⇔ secrets byte-equal, never success otherwise, failure on the responder and failure/abort on the initiator, the secret asked for exactly once per run, no chat text lost. Relay world: A–M1 and M2–B separately keyed, M forwards every SMP TLV it decrypts (with the attacker's own key, and with the relay's conversations holding the honest parties' own long-term keys, i.e. other instances of the same identities): no success on A or B for every pair, initiator, question, version (each run must reach a verdict)"
+			r.Rule = "honest world: for every secret pair (empty, equal, case / last-bit / NUL-suffix / prefix differences, 1000-byte, binary) × with/without question × either initiator × v2/v3: explicit-state exploration of all interleavings of SMP steps, the answer, a budget of chat texts either way (forcing key rotation) and a clock tick, with 1 or 2 StartAuthenticate calls by the initiator (back-to-back), a further StartAuthenticate at any moment by either side (S2r / S2x), in sessions that came about by a first exchange, by a refresh (Hr) by a re-key after one side ended and its disconnect was lost (Ha), and by a refresh after an earlier SMP run in which the peer came back with another long-term key (Hk); oracle: success on both sides ⇔ secrets byte-equal, never success otherwise, failure on the responder and failure/abort on the initiator, the secret asked for exactly once per run, no chat text lost. Relay world: A–M1 and M2–B separately keyed, M forwards every SMP TLV it decrypts (with the attacker's own key, and with the relay's conversations holding the honest parties' own long-term keys, i.e. other instances of the same identities): no success on A or B for every pair, initiator, question, version (each run must reach a verdict)"
 			r.Assumptions = []string{"one initiator per configuration (simultaneous initiation by both sides is not a run of the protocol)", "the relay opens data messages with package-internal key material of its own conversations"}
 			pairs := c11Pairs()
 			var ids []string
@@ -559,7 +569,7 @@ func init() {
 				}
 				ids = append(ids, "v3/a-a/noq/initA/S2/T0", "v2/a-b/q/initB/S2/T0", "v2/a-a/q/initB/S1/T2",
 					"v3/a-a/q/initA/S2r/T0", "v2/a-a/noq/initB/S2x/T0", "v3/a-b/noq/initB/S2r/T0", "v2/a-b/q/initA/S2x/T0",
-					"v3/a-a/noq/initA/S1/T0/Hr", "v2/a-a/q/initB/S1/T0/Ha", "v3/a-a/q/initB/S1/T0/Ha", "v2/a-b/noq/initA/S1/T0/Hr")
+					"v3/a-a/noq/initA/S1/T0/Hr", "v2/a-a/q/initB/S1/T0/Ha", "v3/a-a/q/initB/S1/T0/Ha", "v2/a-b/noq/initA/S1/T0/Hr", "v3/a-a/noq/initA/S1/T0/Hk", "v2/a-a/q/initB/S1/T0/Hk")
 			} else {
 				for _, p := range pairs {
 					for _, v := range []int{2, 3} {
@@ -572,7 +582,7 @@ func init() {
 				}
 				for _, p := range []string{"a-a", "a-b"} {
 					for _, v := range []int{2, 3} {
-						for _, h := range []string{"Hr", "Ha"} {
+						for _, h := range []string{"Hr", "Ha", "Hk"} {
 							for _, ini := range []string{"A", "B"} {
 								ids = append(ids, fmt.Sprintf("v%d/%s/noq/init%s/S1/T1/%s", v, p, ini, h))
 							}
